@@ -10,7 +10,7 @@ import (
 func init() { runners["C19"] = runC19 }
 
 type nlOp struct {
-	kind string // Set Append Add Get
+	kind string // Set Append Add Get Count First
 	tag  string
 	val  string
 }
@@ -19,6 +19,10 @@ func (o nlOp) coq() string {
 	switch o.kind {
 	case "Get":
 		return "OGet " + hx([]byte(o.tag))
+	case "Count":
+		return "OCount"
+	case "First":
+		return "OFirst"
 	default:
 		return "O" + o.kind + " " + hx([]byte(o.tag)) + " " + hx([]byte(o.val))
 	}
@@ -39,7 +43,22 @@ func coqNl(n ap.NaturalLanguageValues) string {
 	return "[" + strings.Join(parts, "; ") + "]"
 }
 
-// runs one history on the real type; returns final state and Get answers, plus native property checks
+// the history as it is really run: Count and First are called on the real list before the first operation and after
+// every operation, and their answers are recorded
+func c19Probed(ops []nlOp) []nlOp {
+	out := []nlOp{{"Count", "", ""}, {"First", "", ""}}
+	for _, o := range ops {
+		out = append(out, o, nlOp{"Count", "", ""}, nlOp{"First", "", ""})
+	}
+	return out
+}
+
+func coqFirst(e ap.LangRefValue) string {
+	return "AFirst (" + hx([]byte(e.Ref)) + ", " + hx(e.Value) + ")"
+}
+
+// runs one history on the real type; returns final state and the answers of Get, Count and First (in the order of
+// c19Probed(ops)), plus native property checks
 //
 // shared = the text handed to Set/Append/Add is, whenever an entry already holds that text, the very slice stored in
 // that entry - what Get hands out (the caller copies a translation from one tag to another) instead of a fresh copy: the
@@ -47,6 +66,7 @@ func coqNl(n ap.NaturalLanguageValues) string {
 func c19Run(ops []nlOp, rep *Report, idx int, shared bool) (ap.NaturalLanguageValues, []string) {
 	var n ap.NaturalLanguageValues
 	var outs []string
+	outs = append(outs, fmt.Sprintf("ACount %d", n.Count()), coqFirst(n.First()))
 	for k, o := range ops {
 		before := make(ap.NaturalLanguageValues, len(n)) // deep: a snapshot must not share text storage
 		for i, e := range n {
@@ -72,8 +92,15 @@ func c19Run(ops []nlOp, rep *Report, idx int, shared bool) (ap.NaturalLanguageVa
 		case "Add":
 			n.Add(ap.LangRefValue{Ref: ap.LangRef(o.tag), Value: val})
 		case "Get":
-			outs = append(outs, coqOptBytes(n.Get(ap.LangRef(o.tag))))
+			outs = append(outs, "AGet "+coqOptBytes(n.Get(ap.LangRef(o.tag))))
+		case "Count":
+			outs = append(outs, fmt.Sprintf("ACount %d", n.Count()))
+		case "First":
+			outs = append(outs, coqFirst(n.First()))
 		}
+		// the observers after every step: what the real Count and First answer here goes into the trace that Coq
+		// compares with the model's
+		outs = append(outs, fmt.Sprintf("ACount %d", n.Count()), coqFirst(n.First()))
 		// native property evaluation, independent of the model
 		fail := func(what string) {
 			rep.Violate(Violation{Op: "NaturalLanguageValues history", Input: fmt.Sprint(ops[:k+1]), Expected: what, Observed: fmt.Sprintf("before=%v after=%v", before, n), Index: idx})
@@ -128,13 +155,13 @@ func c19Run(ops []nlOp, rep *Report, idx int, shared bool) (ap.NaturalLanguageVa
 }
 
 func runC19(seed int64, n int, tier string, outDir string) (*Report, error) {
-	rep := &Report{Rule: "histories of Set/Append/Add/Get over tags {-,en,fr} and texts {a,bb,empty}: exhaustive up to a length bound (2 quick, 4 thorough) plus random histories up to length 14 over a larger alphabet; equality: all ordered pairs of lists without repeated tags over 3 tags x 3 texts, for two families of tags and texts (plain; one a prefix of another), natively exhaustive; a sample goes through Coq in quick, all in thorough); non-trivial = history contains a Set or Append and a Get / pair of non-empty lists; distinct by canonical term"}
+	rep := &Report{Rule: "histories of Set/Append/Add/Get, with Count and First called (and their answers recorded in the trace) before the first and after every operation, over tags {-,en,fr} and texts {a,bb,empty}: exhaustive up to a length bound (2 quick, 4 thorough) plus random histories up to length 14 over a larger alphabet; equality: all ordered pairs of lists without repeated tags over 3 tags x 3 texts, for two families of tags and texts (plain; one a prefix of another), natively exhaustive; a sample goes through Coq in quick, all in thorough); non-trivial = history contains a Set or Append and a Get / pair of non-empty lists; distinct by canonical term"}
 	g := NewGen(seed, "C19")
 	hdr := "From AP.Model Require Import Prelude Vocab Nlv.\n" +
-		"Definition ok (c : list nop * (nl * list (option bytes))) : bool :=\n" +
+		"Definition ok (c : list nop * (nl * list nobs)) : bool :=\n" +
 		"  let '(ops, (st, outs)) := c in let '(st', outs') := nl_run [] ops in\n" +
-		"  list_eqb (pair_eqb bytes_eqb bytes_eqb) st st' && list_eqb (option_eqb bytes_eqb) outs outs'.\n"
-	cw := NewCaseWriter(outDir, "Cases_C19_hist", hdr, "list nop * (nl * list (option bytes))")
+		"  list_eqb (pair_eqb bytes_eqb bytes_eqb) st st' && list_eqb nobs_eqb outs outs'.\n"
+	cw := NewCaseWriter(outDir, "Cases_C19_hist", hdr, "list nop * (nl * list nobs)")
 	tags := []string{"-", "en", "fr"}
 	vals := []string{"a", "bb", ""}
 	var alphabet []nlOp
@@ -149,14 +176,17 @@ func runC19(seed int64, n int, tier string, outDir string) (*Report, error) {
 		if st2, outs2 := c19Run(ops, rep, idx, true); coqNl(st) != coqNl(st2) || fmt.Sprint(outs) != fmt.Sprint(outs2) {
 			rep.Violate(Violation{Op: "NaturalLanguageValues history, texts shared with existing entries", Input: fmt.Sprint(ops), Expected: "same outcome as with fresh copies of the texts: " + coqNl(st), Observed: coqNl(st2), Index: idx})
 		}
-		parts := make([]string, len(ops))
-		nontriv, hasGet := false, false
-		for i, o := range ops {
+		probed := c19Probed(ops) // what c19Run really called, in order
+		parts := make([]string, len(probed))
+		for i, o := range probed {
 			parts[i] = o.coq()
-			if o.kind != "Get" {
-				nontriv = true
-			} else {
+		}
+		nontriv, hasGet := false, false
+		for _, o := range ops {
+			if o.kind == "Get" {
 				hasGet = true
+			} else if o.kind != "Count" && o.kind != "First" {
+				nontriv = true
 			}
 		}
 		term := "([" + strings.Join(parts, "; ") + "], (" + coqNl(st) + ", [" + strings.Join(outs, "; ") + "]))"
